@@ -34,6 +34,8 @@ func C02(c *Ctx) {
 	r.Rule("R02.4", "coherent counter updates: the (from, to, index) triple handed to setDestInterchain comes from one source - the three fields of one IBTP or the three results of one ParseIBTPID call - so a pair's counter is never set from another pair's index.")
 	r.Rule("R02.5", "record windows do not overlap: between loading an interchain record (getInterchain, or receiving it as a parameter) and writing it back (setInterchain, directly or in a helper that receives it), no other interchain record is written; the keys of two records are run-time values that may coincide (source == destination), and then the later write-back restores the stale copy, dropping the counter increment - the index would be accepted twice.")
 	c.c02Windows()
+	r.Rule("R02.6", "acceptance consumes the index: on every path of ProcessIBTP through the request branch (Category() == REQUEST and not a rollback notification) InterchainCounter[to] is advanced and the record is written back before the function returns - also when the target is unavailable and the transaction begins as failed; otherwise checkIBTP keeps expecting the same index and the identical request is accepted again.")
+	c.c02Consumes()
 	r.NotDecided = append(r.NotDecided, "that the counters equal the number of accepted IBTPs over a history; block packing; unordered (batch) destinations are outside the property's 'ordered pair' scope")
 
 	check := c.fn("R02.1", imPrefix+"checkIBTP")
@@ -584,4 +586,84 @@ func (c *Ctx) c02Windows() {
 		}
 	}
 	r.Floor("R02.5", "read-modify-write windows of interchain records", n, 3)
+}
+
+// c02Consumes: R02.6 - an accepted request consumes its index.
+func (c *Ctx) c02Consumes() {
+	r := c.R
+	pi := c.fn("R02.6", imPrefix+"ProcessIBTP")
+	if pi == nil {
+		return
+	}
+	// edges that leave the request branch: Category() != REQUEST, or the notification flag set
+	isCategoryCmp := func(ifi *ssa.If) (bool, bool) { // (is comparison, true edge means request)
+		bo, ok := ifi.Cond.(*ssa.BinOp)
+		if !ok || (bo.Op != token.EQL && bo.Op != token.NEQ) {
+			return false, false
+		}
+		isCat := func(v ssa.Value) bool {
+			cc, ok := core.Strip(v).(*ssa.Call)
+			return ok && core.CalleeObj(cc) != nil && core.CalleeObj(cc).Name() == "Category"
+		}
+		isReq := func(v ssa.Value) bool { return enumName(core.Strip(v)) == "IBTP_REQUEST" }
+		if (isCat(bo.X) && isReq(bo.Y)) || (isCat(bo.Y) && isReq(bo.X)) {
+			return true, bo.Op == token.EQL
+		}
+		return false, false
+	}
+	leave := core.EdgeSet{}
+	nCat := 0
+	for _, b := range pi.Blocks {
+		ifi := core.IfOf(b)
+		if ifi == nil {
+			continue
+		}
+		if ok, trueIsReq := isCategoryCmp(ifi); ok {
+			nCat++
+			if trueIsReq {
+				leave.Add(b, 1)
+			} else {
+				leave.Add(b, 0)
+			}
+			continue
+		}
+		f := core.CondFact(ifi.Cond)
+		if f.Kind == core.FBool {
+			if ex, ok := f.Subject.(*ssa.Extract); ok && ex.Index == 0 {
+				if cc, ok := ex.Tuple.(*ssa.Call); ok && strings.HasSuffix(core.CalleeName(cc), "checkTxStatusForSourceBxh") {
+					leave.Add(b, holdsEdge(f)) // notification: not a fresh request
+				}
+			}
+		}
+	}
+	r.Floor("R02.6", "request-category tests in ProcessIBTP", nCat, 1)
+	if nCat == 0 {
+		return
+	}
+	isConsume := func(in ssa.Instruction) bool {
+		mu, ok := in.(*ssa.MapUpdate)
+		return ok && core.Mentions(mu.Map, fieldNamed("InterchainCounter"))
+	}
+	consume := c.throughHelpers(isConsume)
+	isWriteBack := func(in ssa.Instruction) bool {
+		call, ok := in.(ssa.CallInstruction)
+		return ok && strings.HasSuffix(core.CalleeName(call), "InterchainManager).setInterchain")
+	}
+	for _, step := range []struct {
+		name string
+		p    InstrPred
+		bad  string
+	}{
+		{"the request counter of the pair is advanced", consume, "a request can be accepted (ProcessIBTP returns) without InterchainCounter[to] being advanced: the same index is expected again, the identical IBTP is accepted a second time and the counters no longer equal the number of accepted requests"},
+		{"the advanced record is written back", c.throughHelpers(isWriteBack), "a request can be accepted without the interchain record being written back: the counter increment is lost"},
+	} {
+		rs := core.Reach([]core.Point{core.EntryOf(pi)}, step.p, core.CutOf(leave))
+		bad := ""
+		for _, ret := range core.Returns(pi) {
+			if rs.Has(ret) {
+				bad = c.P.Pos(ret.Pos())
+			}
+		}
+		r.Check(bad == "" && len(sites(pi, step.p)) > 0, "R02.6", "ProcessIBTP: on every path of the request branch "+step.name, c.P.Pos(pi.Pos()), "no return of the request branch is reachable without it", step.bad+" (return at "+bad+")")
+	}
 }
